@@ -636,11 +636,11 @@ TABLE = [
     (r"^(std|core)::option::Option::<.*>::is_none$", m_is_none),
     (r"^(std|core)::result::Result::<.*>::is_ok$", m_is_ok),
     (r"^(std|core)::result::Result::<.*>::is_err$", m_is_err),
-    (r"^<.* as (std::ops::)?Try>::branch$", m_branch),
-    (r"^<.* as (std::ops::)?FromResidual<.*>>::from_residual$", m_from_residual),
-    (r"^<.* as (std::convert::)?(Into|From)<.*>>::(into|from)$", m_identity),
+    (r"^<.* as ((std|core)::ops::)?Try>::branch$", m_branch),
+    (r"^<.* as ((std|core)::ops::)?FromResidual<.*>>::from_residual$", m_from_residual),
+    (r"^<.* as ((std|core)::convert::)?(Into|From)<.*>>::(into|from)$", m_identity),
     (r"^<.* as Clone>::clone$", m_clone),
-    (r"^<.* as (std::ops::)?Deref(Mut)?>::deref(_mut)?$", m_identity),
+    (r"^<.* as ((std|core)::ops::)?Deref(Mut)?>::deref(_mut)?$", m_identity),
     (r"^(std|core)::mem::drop::<.*>$|^(std|core)::ptr::drop_in_place", m_unit),
     (r"^log::|^<.* as log::", m_unit),
     (r"^<prqlc_parser::generic::Range<.*> as (std::default::)?Default>::default$", m_range_default),
